@@ -238,7 +238,7 @@ def gen_neigh(ctx, env):
     return cases
 
 
-WRAP = "-Wl,--wrap=tls_record_send,--wrap=tls_record_recv,--wrap=sm2_do_ecdh,--wrap=tls_pre_master_secret_generate"
+WRAP = "-Wl,--wrap=tls_record_send,--wrap=tls_record_recv,--wrap=sm2_do_ecdh,--wrap=tls_pre_master_secret_generate,--wrap=tls_record_set_handshake_certificate,--wrap=hkdf_expand"
 
 
 def live(ctx):
@@ -253,42 +253,73 @@ def live(ctx):
     fields = lambda line: dict(f.split("=", 1) for f in line.split(" ") if "=" in f)
     protos = ["tlcp", "tls12", "tls13"]
     seed = 31 + ctx.seed % 1000
-    louts, _ = core.run_lines(exe, ["layout %s 0 %d" % (p, seed) for p in protos], shards=3)
+    # what each side sends after the handshake: default (library send functions), empty records first /
+    # in the middle (record-level sender with the connection's keys; tls13_send itself for TLS 1.3),
+    # maximum-size records, TLS 1.3 records with padding (also an all-padding-but-type empty one)
+    plans = {p: ["d", "x0,16,16", "x16,0,16", "16384,16", "x16384,0,16384"] for p in protos}
+    plans["tls13"] += ["0,16,16", "16:100,0:255,16:1", "16384:255,16"]
+    configs = [(p, pl) for p in protos for pl in plans[p]]
+    louts, _ = core.run_lines(exe, ["layout %s 0 %d %s" % (p, seed, pl) for (p, pl) in configs], shards=8)
     cases = []
-    for p, lo in zip(protos, louts):
+    for (p, pl), lo in zip(configs, louts):
+        ctx.cov["evaluations"] += 1
         f = fields(lo) if "=" in lo else {}
-        if f.get("okc") != "1" or f.get("oks") != "1":
-            ctx.violation("live:%s:baseline" % p, "fault-free exchange of application data does not work: " + lo[:200], {"kind": "failing-input", "op": "layout %s 0 %d" % (p, seed), "impl": lo[:800]}); continue
+        np = int(f.get("np", "0") or 0)
+        cellp = "live:%s:%s" % (p, "default" if pl == "d" else ("empty" if ("x0" in pl or ",0" in pl or pl.startswith("0")) and ":" not in pl else ("padded" if ":" in pl else "max-size")))
+        okseq = True
+        if f.get("okc") == "1" and f.get("oks") == "1":
+            # lockstep observed: after the honest exchange both structs hold the same counters, advanced once per record
+            base = 0 if p == "tls13" else 1
+            want = "%04x:%04x" % (base + np, base + np)
+            okseq = f.get("seqc") == want and f.get("seqs") == want
+        if f.get("okc") != "1" or f.get("oks") != "1" or not okseq:
+            ctx.violation(cellp + ":baseline", "fault-free exchange of application records (%s) does not work or leaves the sequence numbers out of step: %s" % (pl, lo[:260]),
+                          {"kind": "failing-input", "op": "layout %s 0 %d %s" % (p, seed, pl), "impl": lo[:800], "harness": "props/C10/harness.c"}); continue
+        ctx.cell(cellp + ":baseline")
         lay = [f["c2s"].split(","), f["s2c"].split(",")]
         for d in (0, 1):
-            first = len(lay[d]) - 2                       # the two application records come last
-            ln = int(lay[d][first].split(":")[1])
-            for i in (first, first + 1):
-                for off in sorted({5, 5 + 15, 5 + 16, ln // 2, ln - 17, ln - 1}):
-                    cases.append(("fault %s 0 %d flip %d %d %d %d 0" % (p, seed, d, i, off, r.below(8)), "live:%s:flip" % p))
+            first = len(lay[d]) - np                      # the application records come last
+            for i in range(first, first + np):
+                ln = int(lay[d][i].split(":")[1])
+                if pl == "d":
+                    for off in sorted({5, 5 + 15, 5 + 16, ln // 2, ln - 17, ln - 1}):
+                        cases.append(("fault %s 0 %d flip %d %d %d %d 0 %s" % (p, seed, d, i, off, r.below(8), pl), cellp + ":flip"))
+                    cases.append(("fault %s 0 %d trunc-fixlen %d %d 0 0 %d %s" % (p, seed, d, i, ln - 16, pl), cellp + ":truncate"))
+                else:
+                    cases.append(("fault %s 0 %d flip %d %d %d %d 0 %s" % (p, seed, d, i, ln - 1, r.below(8), pl), cellp + ":flip"))
                 for kind in ("drop", "dup", "swap"):
-                    cases.append(("fault %s 0 %d %s %d %d 0 0 0" % (p, seed, kind, d, i), "live:%s:%s" % (p, kind)))
-                cases.append(("fault %s 0 %d trunc-fixlen %d %d 0 0 %d" % (p, seed, d, i, ln - 16), "live:%s:truncate" % p))
-    outs, _ = core.run_lines(exe, [c[0] for c in cases], shards=12)
+                    cases.append(("fault %s 0 %d %s %d %d 0 0 0 %s" % (p, seed, kind, d, i, pl), cellp + ":" + kind))
+    outs, _ = core.run_lines(exe, [c[0] for c in cases], shards=16)
     for (line, cell), out in zip(cases, outs):
         ctx.cov["evaluations"] += 1
         ctx.count("op:live")
         rep = {"kind": "failing-input", "op": line, "impl": out[:600], "variant": "asan", "harness": "props/C10/harness.c"}
+        proto = line.split()[1]
         if out.startswith("FAULT"):
-            ctx.violation("live:%s:recv-after-rejected-record" % line.split()[1], "after an application record was rejected, the next receive call on the same connection crashed (%s): conn->datalen keeps the unauthenticated length [%s]" % (out[:60], line), rep); continue
+            ctx.violation("live:%s:recv-after-rejected-record" % proto, "after an application record was rejected, the next receive call on the same connection crashed (%s): conn->datalen keeps the unauthenticated length [%s]" % (out[:60], line), rep); continue
         if "=" not in out:
             ctx.violation(cell + ":harness", "harness error %s [%s]" % (out[:60], line), rep); continue
         f = fields(out)
         d = int(line.split()[5])
         acc = f["accs" if d == 0 else "accc"].split(":")     # receiver of the manipulated direction
+        np = int(f["np"])
         if f["applied"] != "1":
-            continue
+            if "swap" in line:
+                continue                                     # swap of the very last record: nothing follows it
+            ctx.violation(cell + ":fault-not-applied", "the proxy did not see the record to manipulate [%s] -> %s" % (line, out[:160]), rep); continue
         if acc[1] != "0":
-            ctx.violation("live:%s:recv-after-rejected-record" % line.split()[1], "after rejecting a manipulated record the receiver accepted, on a later receive call, data that is not the next message its peer sent (stale / unauthenticated buffer contents) [%s] -> %s" % (line, out[:160]), rep)
-        elif int(acc[0]) == 2 and "swap" not in line and "dup" not in line:
-            ctx.violation(cell + ":fault-not-noticed", "both messages were accepted although a record was manipulated [%s] -> %s" % (line, out[:160]), rep)
+            ctx.violation(cell + ":accepted-out-of-order-or-altered", "the receiver accepted application data that is not the next message its peer sent (replayed / reordered / altered / stale) [%s] -> %s" % (line, out[:200]), rep)
+        elif "dup" in line.split()[4]:
+            # the copy must be refused by one receive call; the genuine records may go on afterwards
+            rets = f["retss" if d == 0 else "retsc"].split(",")
+            if not any(x not in ("1",) for x in rets[:int(acc[0]) + 1]):
+                ctx.violation(cell + ":replay-accepted", "a duplicated record was not refused [%s] -> %s" % (line, out[:200]), rep)
+            else:
+                ctx.cell(cell + ":copy-refused")
+        elif int(acc[0]) == np:
+            ctx.violation(cell + ":fault-not-noticed", "all %d messages were accepted although a record was manipulated [%s] -> %s" % (np, line, out[:200]), rep)
         else:
-            ctx.cell(cell + ":prefix-%s" % acc[0])
+            ctx.cell(cell + ":prefix-%s-of-%d" % (acc[0], np))
 
 
 def oracle(line, a, b):
